@@ -287,6 +287,13 @@ def registry_shape(tree: ast.Module) -> dict:
     )
     srcs = [ast.unparse(s) for s in body]
     out["ttl_ok"] = "effective_ttl = self._default_ttl if ttl is None else ttl" in srcs and "expires_at = time.time() + effective_ttl" in srcs
+    if out["ttl_ok"]:
+        out["ttl_mode"] = "is_none"
+    elif "expires_at = time.time() + (ttl or self._default_ttl)" in srcs or (
+            "effective_ttl = ttl or self._default_ttl" in srcs and "expires_at = time.time() + effective_ttl" in srcs):
+        out["ttl_mode"] = "falsy"   # `ttl or default`: a per-call TTL of 0 silently becomes the default
+    else:
+        raise Unrecognised("_SessionRegistry.open: how the TTL default is applied is not recognised")
     out["sid_ok"] = "session_id = secrets.token_bytes(_SESSION_ID_LEN)" in srcs
     # get: ordered guards inside `with self._lock` (an expired entry is popped under the lock and closed after it)
     g = _func(tree, "get", "_SessionRegistry")
@@ -375,6 +382,7 @@ def sink_shape(tree: ast.Module) -> dict:
         "close_calls_callback": "self._close_callback()" in c,
         "close_sets_closed": "self.closed = True" in c,
         "close_clears_mint": "self.mint_token = None" in c,
+        "close_assigns_hit": "self.closed = self._close_callback()" in c,
         "close_on_hit_only": any(isinstance(st, ast.If) and ast.unparse(st.test) == "self._close_callback()"
                                  and [ast.unparse(b) for b in st.body] == ["self.closed = True"] and not st.orelse
                                  for st in _func(tree, "close", "_StickySink").body),
@@ -609,6 +617,8 @@ def pkeyLayoutOk : Bool := {lean_bool(pk["layout_ok"] and pk["anon_cond_ok"])}
 def drainCheckFirst : Bool := {lean_bool(reg["drain_check_first"])}
 /-- `expires_at = time.time() + (default_ttl if ttl is None else ttl)`, id from `secrets.token_bytes(_SESSION_ID_LEN)` -/
 def openBodyOk : Bool := {lean_bool(reg["ttl_ok"] and reg["sid_ok"])}
+/-- the default TTL is applied with `ttl or default` (so `ttl=0` means "default") instead of `default if ttl is None else ttl` -/
+def ttlDefaultOnFalsy : Bool := {lean_bool(reg["ttl_mode"] == "falsy")}
 /-- ordered guards of `get` (each returns None) -/
 def getSteps : List String := {lean_strs(reg["get_steps"])}
 /-- expiry test of `get` is `entry.expires_at < now` (strict) -/
@@ -631,6 +641,8 @@ def sinkOpenResetsClosed : Bool := {lean_bool(sink["open_resets_closed"])}
 def sinkCloseSetsClosed : Bool := {lean_bool(sink["close_calls_callback"] and sink["close_sets_closed"])}
 /-- `if self._close_callback(): self.closed = True` — the close is announced only when the registry still had the entry -/
 def sinkCloseOnHitOnly : Bool := {lean_bool(sink["close_on_hit_only"])}
+/-- `self.closed = self._close_callback()` — the flag is overwritten with "the registry still had the entry" -/
+def sinkCloseAssignsHit : Bool := {lean_bool(sink["close_assigns_hit"])}
 def sinkCloseClearsMint : Bool := {lean_bool(sink["close_clears_mint"])}
 
 /-! `_StickyMiddleware.process_request` / `process_response` -/
